@@ -29,6 +29,9 @@ EXTRA_FILES = {
     # C06's statement names these contexts (FIFO order, no lost item) although its anchor list omits their files
     'include/unifex/timed_single_thread_context.hpp': ['C06'], 'source/timed_single_thread_context.cpp': ['C06'],
     'include/unifex/thread_unsafe_event_loop.hpp': ['C06'], 'source/thread_unsafe_event_loop.cpp': ['C06'],
+    # files that manipulate async stack frames (C20's bookkeeping clause) but are missing from its anchor list
+    'include/unifex/stop_if_requested.hpp': ['C20'], 'include/unifex/at_coroutine_exit.hpp': ['C20'], 'include/unifex/unhandled_done.hpp': ['C20'],
+    'include/unifex/with_scheduler_affinity.hpp': ['C20'], 'include/unifex/sender_concepts.hpp': ['C20'],
 }
 TRIVIAL = {'move', 'forward', 'addressof', 'get', 'as_const', 'declval', 'operator*', 'operator->', 'static_cast', 'size', 'begin', 'end',
            'operator()', 'operator bool', 'get_stop_token', 'get_scheduler', 'get_allocator'}
